@@ -47,7 +47,7 @@ func c09Prefix(k ref.CartKind, i int) []c08Ev {
 	return nil
 }
 
-func c09Alphabet(k ref.CartKind, banks int) []c08Ev {
+func c09Alphabet(k ref.CartKind, banks int, rtc ...bool) []c08Ev {
 	var evs []c08Ev
 	for _, v := range []uint8{0x0a, 0x00, 0x1a, 0xfa, 0x0b, 0xa0} {
 		evs = append(evs, c08Ev{0x0000, v})
@@ -66,6 +66,11 @@ func c09Alphabet(k ref.CartKind, banks int) []c08Ev {
 			evs = append(evs, c08Ev{0x4000, v})
 		}
 		evs = append(evs, c08Ev{0x6000, 1}) // latch writes must not disturb RAM
+		if len(rtc) > 0 && rtc[0] {
+			// with a clock on board: a clock register mapped at A000-BFFF (seconds, control, an undefined selector):
+			// writes then go to the clock and must leave every RAM bank alone
+			evs = append(evs, c08Ev{0x4000, 0x08}, c08Ev{0x4000, 0x0c}, c08Ev{0x4000, 0x0d})
+		}
 	case ref.KMBC5:
 		for v := uint8(0); v < 16; v++ {
 			evs = append(evs, c08Ev{0x4000, v})
@@ -146,7 +151,7 @@ func c09Check(l *explore.Local, _ struct{}, c c09Case) *explore.Fail {
 		}
 		return p.checkDump()
 	}
-	evs := c09Alphabet(p.mod.Kind, p.mod.RAMBanks)
+	evs := c09Alphabet(p.mod.Kind, p.mod.RAMBanks, p.mod.HasRTC)
 	path := []c08Ev{}
 	var fail *explore.Fail
 	mk := func(f *explore.Fail) {
@@ -220,15 +225,15 @@ func init() {
 				jobs = append(jobs, job{cartSpec{typ, 1, ram}, d})
 			}
 		}
-		jobs = append(jobs, job{cartSpec{0x02, 5, 3}, depth}, job{cartSpec{0x10, 1, 3}, depth - 1}, job{cartSpec{0x1e, 1, 3}, depth - 1},
+		jobs = append(jobs, job{cartSpec{0x02, 5, 3}, depth}, job{cartSpec{0x10, 1, 3}, depth}, job{cartSpec{0x1e, 1, 3}, depth - 1},
 			job{cartSpec{0x05, 1, 0}, depth}, job{cartSpec{0x06, 0, 0}, depth}, job{cartSpec{0x00, 0, 0}, 2}, job{cartSpec{0x00, 0, 2}, 2})
 		explore.Product(c.R, "ram-event-sequences", explore.PartOpt{
 			Bound:  fmt.Sprintf("every sequence up to depth %d (%d for the 64/128 KiB configurations)", depth, depth-1),
-			Domain: "MBC1/MBC3/MBC5 x RAM codes {0,2,3,4,5}, MBC1 large ROM, MBC3+RTC type, MBC5 rumble type, MBC2 (two types), ROM-only; from power-on and from two non-initial histories (data in three banks then disabled; bank/mode changed while disabled)"},
+			Domain: "MBC1/MBC3/MBC5 x RAM codes {0,2,3,4,5}, MBC1 large ROM, MBC3+RTC type (with clock registers 08, 0C and the undefined 0D selectable), MBC5 rumble type, MBC2 (two types), ROM-only; from power-on and from two non-initial histories (data in three banks then disabled; bank/mode changed while disabled)"},
 			func(yield func(c09Case) bool) {
 				for _, j := range jobs {
 					k, _ := ref.KindOf(j.spec.Type)
-					n := len(c09Alphabet(k, 0))
+					n := len(c09Alphabet(k, 0, j.spec.Type == 0x0f || j.spec.Type == 0x10))
 					for pre := 0; pre < 3; pre++ {
 						if pre > 0 && (k == ref.KNone || k == ref.KMBC2 || j.spec.RAMCode < 3 || (j.spec.RAMCode > 3 && !(k == ref.KMBC5 && j.spec.RAMCode == 4))) {
 							continue // the histories only matter with several banks; large configurations are covered by MBC5/128 KiB
